@@ -48,9 +48,23 @@ static void gen_pattern(vh_rng_t * rng, char * out, size_t cap, int root) {
     if (tries >= 50) snprintf(out, cap, "%s:%s", vocab[root], vocab[(root + 1) % NV]);
 }
 
+/* patterns shipped with the library's tests and examples (test_parser.c, test_scpi_utils.c, examples/common/scpi-def.c) */
+static const char * const shipped[] = {
+    "*CLS", "*ESE", "*ESE?", "*ESR?", "*IDN?", "*OPC", "*OPC?", "*RST", "*SRE", "*SRE?", "*STB?", "*TST?", "*WAI",
+    "SYSTem:ERRor[:NEXT]?", "SYSTem:ERRor:COUNt?", "SYSTem:VERSion?", "STATus:QUEStionable[:EVENt]?", "STATus:QUEStionable:ENABle", "STATus:QUEStionable:ENABle?",
+    "STATus:OPERation[:EVENt]?", "STATus:OPERation:CONDition?", "STATus:OPERation:ENABle", "STATus:PRESet", "MEASure:VOLTage:DC?", "CONFigure:VOLTage:DC", "MEASure:VOLTage:DC:RATio?",
+    "MEASure:VOLTage:AC?", "MEASure:CURRent:DC?", "MEASure:CURRent:AC?", "MEASure:RESistance?", "MEASure:FRESistance?", "MEASure:FREQuency?", "MEASure:PERiod?",
+    "SYSTem:COMMunication:TCPIP:CONTROL?", "TEST:BOOL", "TEST:CHOice?", "TEST#:NUMbers#", "TEST:TEXT", "TEST:ARBitrary?", "TEST:CHANnellist", "TEST:TREEA?", "TEST:TREEB?",
+    "TEXTfunction?", "STUB", "STUB?", "SAMple", "MEASure[:SCALar]:CURRent[:DC]?", "OUTPut#[:MODulation#]:FM#", "ABcc[:BCCdddd]:CDEFGeeeee", "[:ABcc]:BCCdddd[:CDEFGeeeee]?" };
+#define NSHIP (sizeof shipped / sizeof shipped[0])
 static void gen_table(vh_rng_t * rng) {
     int n = 6 + (int) vh_below(rng, MAXT - 6 + 1), i, root1 = (int) vh_below(rng, NV), root2 = (int) vh_below(rng, NV);
     T.n = n;
+    if (vh_below(rng, 4) == 0) { /* a table drawn from the shipped patterns, in shipped order shuffled */
+        for (i = 0; i < n; i++) snprintf(T.pat[i], sizeof T.pat[i], "%s", shipped[vh_below(rng, NSHIP)]);
+        vh_count("tables.from_shipped_patterns", 1);
+        return;
+    }
     for (i = 0; i < n; i++) {
         if (vh_chance(rng, 1, 6)) snprintf(T.pat[i], sizeof T.pat[i], "%s", commons[vh_below(rng, 6)]);
         else gen_pattern(rng, T.pat[i], sizeof T.pat[i], vh_chance(rng, 1, 2) ? root1 : root2);
@@ -275,6 +289,6 @@ int main(int argc, char ** argv) {
     vh_require("unit.defined.relative.after-defined-compound"); vh_require("unit.defined.relative.after-undefined-compound");
     vh_require("unit.defined.relative.after-common"); vh_require("unit.undefined.relative.after-defined-compound");
     vh_require("unit.defined.absolute.after-defined-compound"); vh_require("unit.overlap_first_match_matters");
-    vh_require("handler.iscmd_checks");
+    vh_require("handler.iscmd_checks"); vh_require("tables.from_shipped_patterns");
     return vh_main(argc, argv, "C02", phases, 1);
 }
